@@ -17,10 +17,12 @@ inductive Err where
   | other
   deriving DecidableEq, Repr, Inhabited
 
+/-- class name on the line protocol.  Errors that carry no sentinel / type in Go (the `fmt.Errorf`s of
+codec.go, btcec's signature parser) are ONE class: the harness never tells errors apart by their text. -/
 def Err.name : Err → String
   | .eof => "eof" | .varint => "varint" | .stream => "stream" | .badlen => "badlen"
-  | .toolarge => "toolarge" | .pubkey => "pubkey" | .sig => "sig" | .pfx => "prefix"
-  | .length => "length" | .checksum => "checksum" | .other => "other"
+  | .toolarge => "toolarge" | .pubkey => "pubkey" | .sig => "untyped" | .pfx => "untyped"
+  | .length => "untyped" | .checksum => "untyped" | .other => "untyped"
 
 /-- Result of running a piece of Go code: a value, a returned `error`, or a run-time panic
 (nil dereference, slice bounds, `makeslice: len out of range`, loop without progress). -/
